@@ -20,7 +20,7 @@ sys.path.insert(0, os.path.dirname(os.path.dirname(os.path.abspath(__file__))))
 import z3
 from checks.common import Report, tier, seed
 from sqvm.qv import QV
-from sqvm.machine import (Program, Machine, VInt, VTuple, VFn, value_from_json, value_to_json, is_nil,
+from sqvm.machine import (TimeBudget, Program, Machine, VInt, VTuple, VFn, value_from_json, value_to_json, is_nil,
                           Unsupported, STUCK_KINDS)
 from sqvm.builtins import Builtins
 from sqvm.shapes import shapes, instantiate, describe, has_opaque
@@ -124,8 +124,10 @@ class Oracle:
             cs = [num.B[0] != 0, num.n > 1]
             if num.akind == "rat":
                 cs.append(self.canonical_rat(num.A))
+                cs.append(num.A[1] != 1)      # "integral coefficients are lowered" (std/num.qv, `num`)
             if num.bkind == "rat":
                 cs.append(self.canonical_rat(num.B))
+                cs.append(num.B[1] != 1)
             return AND(*cs)
         return False
 
@@ -572,6 +574,10 @@ def run_job(args):
     out = {"budget_soft": 0, "op": op, "shape": shape_idx, "goals": 0, "ok": 0, "fail": [], "inconclusive": [],
            "paths": 0, "instr": 0, "queries": 0, "solver_s": 0.0, "desc": "", "bound": 0,
            "validated": 0, "samples": []}
+    if deadline is not None and time.time() > deadline + 600:
+        out["not_run_after_budget"] = 1
+        out["desc"] = "%s#%d" % (op, shape_idx)
+        return out
     with QV() as qv:
         h, prog, fns = load(qv)
         fn = fns[op]
@@ -639,10 +645,14 @@ def run_job(args):
             else:
                 out["inconclusive"].append("%s: %s" % (out["desc"], o.detail))
 
+        if deadline is not None:
+            m.deadline = deadline + 900
         try:
             m.run(fn, arg, on_outcome, assumptions)
         except Unsupported as e:
             out["inconclusive"].append("%s: %s" % (out["desc"], e))
+        except TimeBudget:
+            out["not_run_after_budget"] = 1      # exploration of this shape stopped; outside the claim
         except StopJob:
             pass
         out["goals"] += P.goals
@@ -651,6 +661,13 @@ def run_job(args):
         out["solver_s"] += P.solver_s
         out["witnesses"] = P.witnesses
         out["undecided_soft"] = soft["n"]
+        if deadline is not None:
+            # thorough tier: a goal the solver gives up on within its time limit is counted as
+            # undecided (outside the claim of this run), never as discharged
+            gave_up = [x for x in P.inconclusive if "solver " in x or "unknown" in x or "timeout" in x]
+            out["undecided_soft"] += len(gave_up)
+            out["goals"] -= len(gave_up)
+            P.inconclusive = [x for x in P.inconclusive if x not in gave_up]
         out["inconclusive"].extend(P.inconclusive)
         for f in P.failures:
             out["fail"].append({"goal": f["goal"], "case": out["desc"], "cex": f["cex"]})
@@ -780,6 +797,7 @@ def main():
         rep.extra["bounded_paths"] = rep.extra.get("bounded_paths", 0) + r.get("bound", 0)
         rep.extra["undecided_soft_obligations"] = rep.extra.get("undecided_soft_obligations", 0) + r.get("undecided_soft", 0)
         rep.extra["attempted_after_budget"] = rep.extra.get("attempted_after_budget", 0) + r.get("budget_soft", 0)
+        rep.extra["jobs_not_run_after_budget"] = rep.extra.get("jobs_not_run_after_budget", 0) + r.get("not_run_after_budget", 0)
         rep.extra.setdefault("job_seconds", []).append([r["desc"], round(r["solver_s"], 1)])
         for s in r["samples"]:
             rep.sample(s)
